@@ -11,14 +11,6 @@ theorem alphaAt_ne_pad : ∀ i, i < 64 → (alphaAt i != padChar) = true := by d
 
 theorem decVal_pad : decVal padChar = 0 := by decide +kernel
 
-theorem decVal_range_nat : ∀ n, n < 256 → -1 ≤ decVal (UInt8.ofNat n) ∧ decVal (UInt8.ofNat n) < 64 := by
-  decide +kernel
-
-/-- every table entry is -1 or a sextet -/
-theorem decVal_range (c : UInt8) : -1 ≤ decVal c ∧ decVal c < 64 := by
-  have h := decVal_range_nat c.toNat (UInt8.toNat_lt c)
-  rwa [UInt8.ofNat_toNat] at h
-
 theorem decVal_sextet (t k : Nat) : decVal (sextet t k) = ((t / 2 ^ k % 64 : Nat) : Int) :=
   decVal_alphaAt _ (Nat.mod_lt _ (by decide))
 
@@ -73,28 +65,5 @@ theorem b64Quads_encode (bs : Bytes) : b64Quads (b64Encode bs) = .ok bs := by
 /-- `base64_decode ∘ base64_encode = id`, for every byte string -/
 theorem b64Decode_encode (bs : Bytes) : b64Decode (b64Encode bs) = .ok bs := by
   simp [b64Decode, b64Encode_length_mod, b64Quads_encode]
-
-/-! ### the decoder never leaves its input -/
-
-theorem b64Quads_acceptable : ∀ (n : Nat) (s : Bytes), s.length = 4 * n → (b64Quads s).Acceptable
-  | 0, s, h => by
-    have : s = [] := List.eq_nil_of_length_eq_zero (by omega)
-    subst this; simp [b64Quads, Res.Acceptable]
-  | n + 1, s, h => by
-    match s, h with
-    | ca :: cb :: cc :: cd :: rest, h =>
-      have ih := b64Quads_acceptable n rest (by simp at h; omega)
-      simp only [b64Quads]
-      split
-      · simp [Res.Acceptable]
-      · cases hr : b64Quads rest <;> simp_all [Res.bind, Res.Acceptable]
-
-theorem b64Decode_acceptable (s : Bytes) : (b64Decode s).Acceptable := by
-  unfold b64Decode
-  split
-  · simp [Res.Acceptable]
-  · rename_i h
-    have : s.length % 4 = 0 := by simpa using h
-    exact b64Quads_acceptable (s.length / 4) s (by omega)
 
 end EphVerif.Manifest
